@@ -131,7 +131,7 @@ Definition clear_child (di : list (N * option tinfo)) (c : xchild) : xchild :=
       match find_track di (x_track t) with
       | None => c
       | Some _ => XTraf (mkX (x_track t) (filter (fun b => negb (is_prot_kind_x (tk b))) (x_children t))
-                             (x_offsets t) (x_ivs t) (x_subs t) (x_data t))
+                             (x_offsets t) [] [] (x_data t))     (* the senc is gone with its IVs / sub-sample lists *)
       end
   | _ => c
   end.
@@ -151,11 +151,8 @@ Fixpoint set_positions (base : N) (cs : list xchild) (poss : list (list N)) : li
   match cs with
   | [] => []
   | XTraf t :: rest =>
-      match poss with
-      | p :: ps => XTraf (mkX (x_track t) (x_children t) (map (fun q => Z.of_N (base + q)) p)
-                              (x_ivs t) (x_subs t) (x_data t)) :: set_positions base rest ps
-      | [] => XTraf (mkX (x_track t) (x_children t) [] (x_ivs t) (x_subs t) (x_data t)) :: set_positions base rest []
-      end
+      XTraf (mkX (x_track t) (x_children t) (map (fun q => Z.of_N (base + q)) (hd [] poss))
+                 (x_ivs t) (x_subs t) (x_data t)) :: set_positions base rest (tl poss)
   | c :: rest => c :: set_positions base rest poss
   end.
 
@@ -168,3 +165,35 @@ Fixpoint traf_tracks (cs : list xchild) : list N :=
 Fixpoint distinctN (l : list N) : bool :=
   match l with [] => true | x :: t => negb (existsb (N.eqb x) t) && distinctN t end.
 Definition xwf (cs : list xchild) : bool := distinctN (traf_tracks cs).
+
+(* ---------------------------------------------------------------- the packager side (third-party style) *)
+(* every protected traf's samples (all its truns, in order) go through the per-sample loop of EncryptFragment with the
+   track's own IV and protection function; what the decoder later hands to DecryptFragment is kept: per-sample IVs,
+   sub-sample lists, encrypted bytes.  The box structure (protection boxes at ANY position, pssh boxes in the moof) is
+   that of the input: the input is the protected box tree with the clear sample bytes *)
+Section Pack.
+  Variable E : list N -> list N -> list N.
+  Variable D : list N -> list N -> list N.
+  Variable protfunc : N -> list N -> res (list ssp).   (* per track: AVC, HEVC or audio *)
+  Variable iv_of : N -> list N.                        (* per track: the 16-byte IV the loop starts with *)
+
+  Definition enc_traf (di : list (N * option tinfo)) (key : list N) (t : xtraf) : res xtraf :=
+    match find_track di (x_track t) with
+    | None => Ok t
+    | Some ti =>
+        do encs <- (match ti_sch ti with
+                    | Cenc => encrypt_samples_cenc E (protfunc (x_track t)) key (iv_of (x_track t)) (x_data t)
+                    | Cbcs => encrypt_samples_cbcs E D (protfunc (x_track t)) key (iv_of (x_track t)) (ti_cb ti) (ti_sb ti) (x_data t)
+                    | SchemeOther => Err
+                    end);
+        Ok (mkX (x_track t) (x_children t) (x_offsets t) (decoded_ivs encs) (decoded_subs encs) (map e_data encs))
+    end.
+
+  Fixpoint enc_children (di : list (N * option tinfo)) (key : list N) (cs : list xchild) : res (list xchild) :=
+    match cs with
+    | [] => Ok []
+    | XTraf t :: rest =>
+        do t' <- enc_traf di key t; do r <- enc_children di key rest; Ok (XTraf t' :: r)
+    | c :: rest => do r <- enc_children di key rest; Ok (c :: r)
+    end.
+End Pack.
